@@ -96,6 +96,9 @@ class SemVer:
             vec = []
             pre = False
             specified_count = 0
+            # Build metadata is ignored; the pre-release section is a list of
+            # dot separated identifiers, numeric only when all digits.
+            in_, dash, prerelease = in_.partition('+')[0].partition('-')
             for m in _SEMVER_TOK_RE.finditer(in_):
                 if m.group(1):
                     if pre or specified_count < 3:
@@ -117,6 +120,12 @@ class SemVer:
                     vec.append(ident)
                 else:
                     break  # +build metadata: discard the rest
+            idents = [i for i in prerelease.split('.') if i]
+            if idents and not pre:
+                while len(vec) < 3:
+                    vec.append(0)
+                vec.append(-1)
+            vec.extend(int(i) if i.isascii() and i.isdigit() else i for i in idents)
         else:
             # Direct construction from a pre-built component list.
             vec = list(in_)
